@@ -20,10 +20,11 @@ RULE = ("SCC streams in the three caption modes: pop-on groups of 1-3 rows on no
         "outcome from the generated row lengths alone. Non-trivial: at least one row longer than "
         "32 together with another row in the same group. "
         'Groups sit on the timeline sequentially, exactly 24 h after the first group, or on '
-        "the first group's timecode again; rows may contain a mid-row code; the final caption "
+        "the first group's timecode again; rows may contain a mid-row code and begin / end with 1-2 blanks; the final caption "
         'may be unterminated; the SCCReader object is fresh or has a past. ')
 ASSUMPTIONS = [
-    "rows are runs of letters/digits without leading or trailing spaces (their length is unambiguous)",
+    "rows are runs of letters/digits with 0-2 blanks at either edge; a row that exceeds 32 only "
+    "by its edge blanks may be rejected or returned, but no returned line may exceed 32",
 ]
 
 ALPH = "abcdefghijklmnopqrstuvwxyzABCDEFGHIJKLMNOPQRSTUVWXYZ"
@@ -50,7 +51,10 @@ def stream_strategy(tier):
         # optional mid-row italics code inside a row: [group][row] -> split position or None
         mids = [[draw(st.one_of(st.none(), st.none(), st.integers(1, max(1, n - 1)))) if n >= 2 else None
                  for n in g] for g in groups]
-        return {"mode": mode, "groups": groups, "ru": draw(st.sampled_from(["RU2", "RU3", "RU4"])),
+        # blanks at the edges of a row: [group][row] -> [leading, trailing]
+        pads = [[draw(st.sampled_from([[0, 0], [0, 0], [0, 0], [1, 0], [2, 0], [0, 1], [0, 2], [1, 1]]))
+                 for _ in g] for g in groups]
+        return {"mode": mode, "groups": groups, "pads": pads, "ru": draw(st.sampled_from(["RU2", "RU3", "RU4"])),
                 "drop": draw(st.booleans()), "double": draw(st.booleans()), "mids": mids,
                 "terminate": draw(st.integers(0, 2)) != 0, "reuse": draw(SP.reuse_strategy()),
                 "tc": [draw(st.sampled_from(["seq", "seq", "seq", "plus24h", "repeat-first"]))
@@ -93,6 +97,9 @@ def build(case, perm=None):
         if perm is not None:
             order = list(perm[gi])
         texts = {k: _text(lens[k], f"g{gi}r{k}x") for k in range(len(lens))}
+        for k, (lead, trail) in enumerate((case.get("pads") or [[]] * (gi + 1))[gi]):
+            if lens[k] >= lead + trail + 1:
+                texts[k] = " " * lead + texts[k][:lens[k] - lead - trail] + " " * trail
         if mode in ("pop", "pop-adjacent"):
             w = ctrl("ENM") + ctrl("RCL")
             screen_rows = [2 + 4 * j for j in range(len(lens))] if mode == "pop" else [5 + j for j in range(len(lens))]
@@ -133,8 +140,10 @@ def build(case, perm=None):
 
 def _read_outcome(doc, rows, reuse=None):
     # a mid-row code occupies a cell: a row of n characters with a mid-row code shows n or n+1
-    must_fail = [r for r, mid in rows if len(r) > 32]
-    may_fail = [r for r, mid in rows if mid is not None and len(r) == 32]
+    # blanks at the edges of a row: whether they count is not stated; a row that exceeds 32 only
+    # with them may be rejected or returned (stripped or not - the returned lines are judged)
+    must_fail = [r for r, mid in rows if len(r.strip()) > 32]
+    may_fail = [r for r, mid in rows if (mid is not None and len(r) == 32) or len(r) > 32 >= len(r.strip())]
     try:
         cs = SP.used_reader(reuse, doc).read(doc)
     except CaptionLineLengthError as e:
@@ -143,10 +152,10 @@ def _read_outcome(doc, rows, reuse=None):
                 lambda: f"CaptionLineLengthError although no transmitted row exceeds 32 characters "
                         f"(lengths {[len(r) for r, _ in rows]}): {msg[:300]}")
         for r, mid in rows:
-            if len(r) > 32:
+            if len(r.strip()) > 32:
                 parts = [r] if mid is None or mid >= len(r) else [r[:mid], r[mid:]]
                 for part in parts:
-                    require(part in msg, lambda: f"the error message does not name the offending row {r!r} "
+                    require(part.strip() in msg, lambda: f"the error message does not name the offending row {r!r} "
                                                  f"(length {len(r)}); message: {msg[:600]!r}; document: {doc}")
         return "error" if must_fail else "either"
     except CaptionReadNoCaptions:
